@@ -296,7 +296,11 @@ def formula_rules(repo, rep):
     check_equal(rep, 'R-FORMULA', base + 'xi1', w, xi1_c, rxi1, 'xi\' = xi + sum b_r sin(2r xi) cosh(2r eta), xi = y/A')
     check_equal(rep, 'R-FORMULA', base + 'eta1', w, eta1_c, reta1, 'eta\' = eta + sum b_r cos(2r xi) sinh(2r eta), eta = x/A')
     check_equal(rep, 'R-FORMULA', base + 'conf_lat', w, conf_c, rconf, 'conformal latitude atan(sin xi\' / sqrt(sinh^2 eta\' + cos^2 xi\'))')
-    check_equal(rep, 'R-FORMULA', base + 'lon', w, lon, rlon, 'longitude = cm + degrees(atan(sinh eta\' / cos xi\'))')
+    # the longitude is compared as an angle: a fold into [-180, 180] (zones 1 and 60 reach across the +/-180 meridian) picks another
+    # representative of the same angle; the representative is the business of the range rule (common.longitude_range_rule)
+    from ..symcheck import strip_turn_folds
+    lon = strip_turn_folds(lon)
+    check_equal(rep, 'R-FORMULA', base + 'lon', w, lon, rlon, 'longitude = cm + degrees(atan(sinh eta\' / cos xi\')) (modulo a full turn)')
     rep.floor('R-FORMULA', 4, 'xi1, eta1, conf_lat, lon')
     # Newton residual
     nw = find_newton(f)
@@ -586,6 +590,7 @@ def run(repo, rep):
     common.tm_division_rules(repo, rep)
     # geographic -> grid -> geographic goes through the automatic zone of geo2grid: zone / central meridian on the lattice
     common.zone_table_rule(repo, rep)
+    common.longitude_range_rule(repo, rep)
     if ctx is not None:
         cm_sibling_rule(repo, rep, ctx)
     tr = ThreadRule(repo, _Filter(rep, lambda key: 'psfandgridconv' not in key))
@@ -614,5 +619,6 @@ def controls(repo):
             return n.left
         substitute(fn, pred, make, limit=1, expect=1)
     out.append(('south-false-northing', repo.variant({'geodepy/convert.py': replace_in_function(src, 'grid2geo', drop_fn)}), 'grid2geo::xi1'))
+    out.append(('longitude-fold-dropped', text_variant(repo, 'geodepy/convert.py', '        long -= 360\n', '        long -= 0\n'), 'longitude-accepted-by-geo2grid'))
     out.append(('standalone-b6', text_variant(repo, 'Standalone/mga2gda.py', '        - 22619520))', '        + 22619520))'), 'mga2gda.py::<module>::b6'))
     return out
